@@ -110,6 +110,7 @@ func loadProg(dir string, tags string, goarch string) *Prog {
 	// rename normalisation (rename.go): spell renamed unexported names back to the frozen ones in an overlay
 	var renames, inlined []string
 	var curOverlay map[string][]byte
+	fieldAlias = map[fieldKey]fieldKey{}
 	reload := func(ov map[string][]byte) []*packages.Package {
 		cfg2 := *cfg
 		cfg2.Overlay = ov
@@ -149,6 +150,11 @@ func loadProg(dir string, tags string, goarch string) *Prog {
 				}
 			}
 		}
+		fieldAlias = movedFields(frozen, inventoryOf(pkgs))
+		for k, v := range fieldAlias {
+			renames = append(renames, fmt.Sprintf("field %s analysed as %s (moved into a nested struct)", k, v))
+		}
+		sort.Strings(renames)
 		// helper normalisation (inline.go): splice new helper functions back into their callers
 		if os.Getenv("GOATCHECK_NO_INLINE") == "" {
 			for pass := 0; pass < inlineMaxPasses; pass++ {
